@@ -181,8 +181,11 @@ func (m *hmodel) plan(si int) step {
 		m.commit = m.last
 		st.St = raftpb.HardState{Term: m.term, Vote: m.vote, Commit: m.commit}
 	case "hs-term":
-		m.term++
-		m.vote = m.term%3 + 1
+		// alternately a new term (with a vote) and a vote-only change within the term
+		if m.pos%2 == 0 {
+			m.term++
+		}
+		m.vote = m.vote%3 + 1
 		st.St = raftpb.HardState{Term: m.term, Vote: m.vote, Commit: m.commit}
 	case "overwrite":
 		m.term++
